@@ -41,20 +41,20 @@ func valUintNotEmptyAsString(fi *finfo, rv reflect.Value, addr uintptr) (any, re
 }
 
 func ivalUint(fi *finfo, rv reflect.Value, addr uintptr) (any, reflect.Value, bool) {
-	return rv.FieldByIndex(fi.index).Interface().(uint), nilValue, false
+	return uint(rv.FieldByIndex(fi.index).Uint()), nilValue, false
 }
 
 func ivalUintAsString(fi *finfo, rv reflect.Value, addr uintptr) (any, reflect.Value, bool) {
-	return strconv.FormatUint(uint64(rv.FieldByIndex(fi.index).Interface().(uint)), 10), nilValue, false
+	return strconv.FormatUint(uint64(uint(rv.FieldByIndex(fi.index).Uint())), 10), nilValue, false
 }
 
 func ivalUintNotEmpty(fi *finfo, rv reflect.Value, addr uintptr) (any, reflect.Value, bool) {
-	v := rv.FieldByIndex(fi.index).Interface().(uint)
+	v := uint(rv.FieldByIndex(fi.index).Uint())
 	return v, nilValue, v == 0
 }
 
 func ivalUintNotEmptyAsString(fi *finfo, rv reflect.Value, addr uintptr) (any, reflect.Value, bool) {
-	v := rv.FieldByIndex(fi.index).Interface().(uint)
+	v := uint(rv.FieldByIndex(fi.index).Uint())
 	if v == 0 {
 		return nil, nilValue, true
 	}
